@@ -20,7 +20,7 @@ body_compat row_compat row_proj tyC_struct tyC_enum tyC_vec tyC_option_some tyC_
 spec_valid specFields_valid specVars_valid skip_encTy skip_frame skip_piece assemble_total fieldsFit_of_frame
 stepC_piece stepC_gap reader_val_eq projFields_find assemble_ok
 benign_always benignP_always action_bare_null action_of_not_bare bareNull_tagBytes""".split()]
-PACKAGES = ["dgen"]
+PACKAGES = ["dgen", "hcore"]
 on_build_failure = base.on_build_failure
 def prepare(seed, tier):
     base.ID_FOR_ATTRS[0] = False          # the attribute front-end stream belongs to C08
@@ -75,7 +75,8 @@ def streams(rng, tier):
 
     st = Stream("derive-compat", "dgen", [r[0] for r in rows], model_ops=[r[1] for r in rows], spec_ops=[r[2] for r in rows], judge=base.guard_pruned(judge, tier), rule=RULE)
     st.shrinkable = False
-    return [st, unknown_fields_stream(rng, tier, c, a)]
+    from verifkit import dextra
+    return [st, unknown_fields_stream(rng, tier, c, a), dextra.stream(rng, tier)]
 
 
 RAW_UNKNOWN = ["00", "f6", "6161", "8201f6", "a10102", "c11a65a4f2c0", "9fff", "bfff", "9f01ff", "5f4101ff", "7f6161ff",
@@ -137,6 +138,9 @@ def unknown_fields_stream(rng, tier, c, a):
 
 def replay_streams(rp):
     op = rp["original_op"] if "original_op" in rp else rp["op"]
+    if op.startswith("dextra"):
+        from verifkit import dextra
+        return [dextra.replay(rp)]
     if op.startswith("ddec "):
         return [Stream("replay", "dgen", [op], model_ops=[rp["model_op"]], judge=lambda o, i, m, s: "ok" if i == m and i.startswith("ok") else "violation")]
     return [Stream("replay", "dgen", [op], model_ops=[rp["model_op"]], spec_ops=[rp["spec_op"]] if rp.get("spec_op") else None, judge=judge)]
